@@ -47,11 +47,7 @@ Theorem C05_rearrange_content_pure : forall {K} (leb : K -> K -> bool) (key : op
   exists g', interpret m (rearrange leb key af t) = Ok g' /\
              gtop g' = gtop g /\ gmeta g' = gmeta g /\
              Permutation (triples g') (triples g).
-Proof.
-  intros K leb [k|] af m t g H; unfold rearrange.
-  - exact (rearrange_st_content leb (pure_key k) af tt m t g H).
-  - exact (rearrange_st_content unit_leb (pure_key (fun _ => tt)) af tt m t g H).
-Qed.
+Proof. intros K. exact (@rearrange_content_pure K). Qed.
 Print Assumptions C05_rearrange_content_pure.
 
 (* with a pure key: at EVERY node (the equation holds for nested nodes, which are
@@ -74,18 +70,25 @@ Theorem C05_rearrange_sorted_stable : forall {K} (leb : K -> K -> bool) (k : str
 Proof. intros K. exact (@rearrange_sorted_stable K). Qed.
 Print Assumptions C05_rearrange_sorted_stable.
 
+(* ... and so the WHOLE rearranged tree is sorted: at the root and at every nested
+   node, the branches after a leading "/" are in key order *)
+Theorem C05_rearrange_all_sorted : forall {K} (leb : K -> K -> bool) (k : str -> K) (vars : list atom),
+  total leb -> transitive leb -> forall n, all_sorted leb k vars (rn leb k vars n).
+Proof. intros K. exact (@rearrange_all_sorted K). Qed.
+Print Assumptions C05_rearrange_all_sorted.
+
+Theorem C05_all_sorted_meaning : forall {K} (leb : K -> K -> bool) (k : str -> K) (vars : list atom) v bs,
+  all_sorted leb k vars (Node v bs) <-> rest_sorted leb k vars bs /\ go_sorted leb k vars true bs.
+Proof. intros K. exact (@all_sorted_eq K). Qed.
+Print Assumptions C05_all_sorted_meaning.
+
 (* [rearrange] with [Some k] / [None] is [rn] with that key / the constant key *)
 Theorem C05_rearrange_is_rn : forall {K} (leb : K -> K -> bool) (k : str -> K) af t,
   troot (rearrange leb (Some k) af t) = rn leb k (if af then tree_vars (troot t) else []) (troot t) /\
   troot (rearrange leb (@None (str -> K)) af t) =
     rn unit_leb (fun _ => tt) (if af then tree_vars (troot t) else []) (troot t) /\
   tmeta (rearrange leb (Some k) af t) = tmeta t.
-Proof.
-  intros K leb k af t. unfold rearrange, rearrange_st, rn.
-  destruct (rearrange_node leb (pure_key k) (if af then tree_vars (troot t) else []) tt (troot t)).
-  destruct (rearrange_node unit_leb (pure_key (fun _ : str => tt)) (if af then tree_vars (troot t) else []) tt (troot t)).
-  simpl. auto.
-Qed.
+Proof. intros K. exact (@rearrange_is_rn K). Qed.
 Print Assumptions C05_rearrange_is_rn.
 
 (* uniqueness of the stable sort: the assumption "CPython's sorted is a stable sort
@@ -97,18 +100,15 @@ Theorem C05_stable_sort_unique : forall {A K} (leb : K -> K -> bool) (key : A ->
 Proof. intros A K. exact (@sorted_by_unique A K). Qed.
 Print Assumptions C05_stable_sort_unique.
 
-(* the comparisons of the shipped keys are total preorders *)
+(* the comparisons of the shipped keys are total preorders; so is the comparison of
+   the command line's composite key [f(role) for f in funcs] (lists, lexicographic) *)
 Theorem C05_key_orders_total_preorders :
   (total alnum_leb /\ transitive alnum_leb) /\
   (total canonical_leb /\ transitive canonical_leb) /\
-  (total bool_leb /\ transitive bool_leb) /\ (total N.leb /\ transitive N.leb).
-Proof.
-  repeat split.
-  - exact alnum_leb_total. - exact alnum_leb_transitive.
-  - exact canonical_leb_total. - exact canonical_leb_transitive.
-  - exact bool_leb_total. - exact bool_leb_transitive.
-  - exact N_leb_total. - exact N_leb_transitive.
-Qed.
+  (total bool_leb /\ transitive bool_leb) /\ (total N.leb /\ transitive N.leb) /\
+  (forall K (leb : K -> K -> bool), total leb -> transitive leb ->
+     total (list_leb leb) /\ transitive (list_leb leb)).
+Proof. exact key_orders_total_preorders. Qed.
 Print Assumptions C05_key_orders_total_preorders.
 
 (* alphanumeric_order: equal name part -> numeric comparison of the digit suffix;
